@@ -501,3 +501,47 @@ package statedb
 //@   atcall SortableMutexes.Lock@1 requires @no-root-mutex-while-locking !GH_held[addr(db.mu)]
 //@   ensures @root-mutex-untouched unchanged(GH_held)
 //@   ensureslocal @holds-table-locks GH_smus[txn.smus] && !GH_held[addr(db.mu)]
+
+// ---------------------------------------------------------------------------
+// WatchSet.Wait (C20): what is returned was a member and is closed; exactly the returned
+// channels are removed; an empty result comes with the context's error; the lock is released.
+//@ func (*WatchSet).Wait returns (chans, err)
+//@   property C20
+//@   flag nosafety
+//@   flag dyncall.cancel=pure
+//@   flag splitreturns=yes
+//@   requires ws != nil && ws.chans != nil && !GH_held[addr(ws.mu)]
+//@   ensures @subset-closed forall i int :: 0 <= i && i < len(chans) ==> (let c = chans[i] in old(has(ws.chans, c)) && closed(c))
+//@   ensures @others-stay forall c ptr :: has(ws.chans, c) ==> old(has(ws.chans, c))
+//@   ensures @returned-removed forall i int :: 0 <= i && i < len(chans) ==> !has(ws.chans, chans[i])
+//@   ensures @only-returned-removed forall c ptr :: old(has(ws.chans, c)) && !has(ws.chans, c) ==> (exists i int :: 0 <= i && i < len(chans) && chans[i] == c)
+//@   ensures @result-or-error len(chans) > 0 || err != nil
+//@   ensures @lock-released !GH_held[addr(ws.mu)]
+//@   ensures @error-is-context-error err != nil ==> closed(doneChan(ctx))
+//@   loop 1 invariant @cases-are-members $n >= 0 && unboxptr(rvIface(cases[0].Chan)) == doneChan(ctx) && casesIndex == $n + 1 && len(cases) == 1 + len(ws.chans) && (forall i int :: 1 <= i && i < casesIndex ==> has(ws.chans, unboxptr(rvIface(cases[i].Chan))))
+//@   loop 2 invariant @settle (forall i int :: 1 <= i && i < len(cases) ==> has(ws.chans, unboxptr(rvIface(cases[i].Chan)))) && len(closedChannels) >= 1 && (forall i int :: 0 <= i && i < len(closedChannels) ==> has(ws.chans, closedChannels[i]) && closed(closedChannels[i]))
+//@ func (*WatchSet).Wait$1
+//@   inline
+//@   loop 1 invariant @deleted-prefix let m = ws.chans in 0 <= $i && $i <= len(closedChannels) && (forall c ptr :: has(m, c) <==> (old(has(m, c)) && !(exists j int :: 0 <= j && j < $i && closedChannels[j] == c)))
+
+// The other WatchSet operations: membership is exactly what Add put in and Clear/Wait took out.
+//@ func (*WatchSet).Add
+//@   property C20
+//@   flag nosafety
+//@   requires ws != nil && ws.chans != nil && !GH_held[addr(ws.mu)]
+//@   ensures @added forall i int :: 0 <= i && i < len(chans) ==> has(ws.chans, chans[i])
+//@   ensures @others-unchanged forall c ptr :: old(has(ws.chans, c)) ==> has(ws.chans, c)
+//@   ensures @only-added forall c ptr :: has(ws.chans, c) && !old(has(ws.chans, c)) ==> (exists i int :: 0 <= i && i < len(chans) && chans[i] == c)
+//@   ensures @lock-released !GH_held[addr(ws.mu)]
+//@   loop 1 invariant let m = ws.chans in 0 <= $i && $i <= len(chans) && (forall c ptr :: has(m, c) <==> (old(has(m, c)) || (exists j int :: 0 <= j && j < $i && chans[j] == c)))
+//@ func (*WatchSet).Has
+//@   property C20
+//@   flag nosafety
+//@   requires ws != nil && ws.chans != nil && !GH_held[addr(ws.mu)]
+//@   ensures @membership result <==> has(ws.chans, ch)
+//@   ensures @unchanged forall c ptr :: has(ws.chans, c) <==> old(has(ws.chans, c))
+//@ func (*WatchSet).Clear
+//@   property C20
+//@   flag nosafety
+//@   requires ws != nil && ws.chans != nil && !GH_held[addr(ws.mu)]
+//@   ensures @emptied forall c ptr :: !has(ws.chans, c)
